@@ -80,6 +80,9 @@ def run_per(case, ctx):
 
     cap, alpha = case["cap"], ALPHAS[case["alpha"]]
     buf = rb.PrioritizedReplayBuffer(cap, alpha=alpha)
+    from agilerl.components.sampler import Sampler
+
+    sampler = Sampler(memory=buf)
     leaves = {}  # slot -> p**alpha
     count = 0  # rows added since clear
     maxp = 1.0
@@ -143,7 +146,12 @@ def run_per(case, ctx):
             rb.torch = proxy
             try:
                 with ctx.promised("C11/sample"):
-                    batch = buf.sample(k, beta)
+                    if case.get("via_sampler"):
+                        # the path train_off_policy uses: Sampler(memory=per_buffer).sample(batch_size, beta)
+                        batch = sampler.sample(k, beta)
+                        labels.add("sampled-through-Sampler")
+                    else:
+                        batch = buf.sample(k, beta)
             finally:
                 rb.torch = torch
             idxs = batch["idxs"].reshape(-1).tolist()
@@ -276,7 +284,7 @@ def per_strategy(draw, tier):
     clr = st.tuples(st.just("clear"))
     ops = draw(st.lists(st.one_of(add, add, upd, upd, smp, smp, smp, clr) if draw(st.integers(0, 3)) == 0
                         else st.one_of(add, add, upd, upd, smp, smp, smp), min_size=1, max_size=100 if big else 30))
-    return {"cap": cap, "alpha": draw(st.integers(0, 3)), "ops": _listify(ops)}
+    return {"cap": cap, "alpha": draw(st.integers(0, 3)), "ops": _listify(ops), "via_sampler": draw(st.booleans())}
 
 
 def _listify(x):
@@ -311,7 +319,7 @@ PROPERTY = Property(
     assumptions=["the stratified sampler draws through the name `torch.rand` of agilerl.components.replay_buffer; if it stops doing so the "
                  "inverse-CDF clause is skipped (label inverse-cdf-checked goes to zero) and the other clauses still decide",
                  "update_priorities receives indices of shape (B,1) and float32 numpy priorities, as RainbowDQN.learn returns them"],
-    wanted_labels=["inverse-cdf-checked", "non-pow2-capacity", "repeated-index", "tiny-priority", "huge-priority",
+    wanted_labels=["sampled-through-Sampler", "inverse-cdf-checked", "non-pow2-capacity", "repeated-index", "tiny-priority", "huge-priority",
                    "variate-at-stratum-end", "wrapped", "updated", "cleared"],
     fuzz=['per_buffer_model', 'segment_tree_differential'],
 )
